@@ -259,8 +259,10 @@ class MaskCombinator(Generic[R], GenerativeFunction[Mask[R]]):
             MaskTrace.build(self, premasked_trace, post_check),
             final_weight,
             Mask.build(retdiff, check_diff),
+            # The discarded values are previous choices only if the trace was unmasked
+            # before the move (a previously masked trace has no visible choices).
             Update(
-                inner_chm.mask(post_check),
+                inner_chm.mask(pre_check),
             ),
         )
 
